@@ -11,7 +11,7 @@ PP6 == [g \in GPUs |-> 1..6]
 
 SInit == Init /\ act = [a |-> "Init"]
 Aw(e) == act' = [a |-> "Await", e |-> e]
-SNext ==
+SNextDrv ==
   \/ TakeMMU /\ Aw("TakeMMU")
   \/ RecvRsp /\ Aw("RecvRsp")
   \/ SendReply /\ Aw("Reply")
@@ -30,5 +30,12 @@ SNext ==
                             want |-> (g :> SeqOf(vs, LAMBDA v : v)), size |-> 1, src |-> "MMU"])
               /\ act' = [a |-> "EnvMMUReq", host |-> h, g |-> g, vs |-> SeqOf(vs, LAMBDA v : v),
                          acc |-> SeqOf(acc, LAMBDA x : x)]
+SNext ==
+  \/ /\ nHost < MaxHost /\ nHost' = nHost + 1
+     /\ \/ \E g \in GPUs : HasFree(g) /\ HostAlloc(100 + nHost, g, LowestFree(g), DataAt(<<g, LowestFree(g)>>))
+                             /\ act' = [a |-> "HostAlloc", g |-> g, v |-> 100 + nHost]
+        \/ \E v \in DOMAIN pt : HostWrite(v, 900 + nHost) /\ act' = [a |-> "HostWrite", v |-> v]
+        \/ \E v \in {u \in DOMAIN pt : u >= 100} : HostFree(v) /\ act' = [a |-> "HostFree", v |-> v]
+  \/ UNCHANGED nHost /\ SNextDrv
 SSpec == SInit /\ [][SNext]_<<vars, act>>
 =============================================================================
